@@ -2,6 +2,7 @@ import Model
 import Model.Elab
 import Proofs.Walk
 import Proofs.Team
+import Proofs.TeamAll
 import Proofs.EffortGlobal
 import Proofs.WFCheck
 /-!
@@ -209,6 +210,20 @@ theorem shared_limit_counts_whole_team (e : Env) (wf : WF e) (σ : St) (t : Nat)
       (by simp [hnof]) hk
     rw [countMember_eq] at hok
     omega
+
+/-- **a team books all of its members for the same instants, or nobody** (`bookResources`, one slot, after the
+    repairs of F31 and F32): for a team task with pairwise different selected members, in any state satisfying the
+    scheduler invariant in which the task has no entry in the slot yet — whatever the members' prior usage of the slot,
+    their limits and shared limits, the start offset — after `bookResources` either no member holds an entry of the
+    task in that slot, or every member holds one, all of them for the same `a > 0` seconds (the instants
+    `[G − a, G)` of the slot, as every member's slot was levelled to the same `used` before) -/
+theorem team_all_or_nobody_same_seconds (e : Env) (wf : WF e) (σ : St) (t : Nat) (w : Walk)
+    (hinv : Inv e σ) (ha : (e.taskD t).hasAlloc = true)
+    (hteam : isTeam e t (selectedOf e σ t w) = true) (hnd : (selectedOf e σ t w).Nodup)
+    (hclean : ∀ r ∈ selectedOf e σ t w, usageOf (σ.led.get r w.cur).usage t = none) :
+    (∀ r ∈ selectedOf e σ t w, usageOf ((bookResources e σ t w).1.led.get r w.cur).usage t = none) ∨
+    (∃ a, 0 < a ∧ ∀ r ∈ selectedOf e σ t w, usageOf ((bookResources e σ t w).1.led.get r w.cur).usage t = some a) :=
+  bookResources_team e wf σ t w hinv ha hteam hnd hclean
 
 example : usageOf ({ used := 1200, usage := [(0, 1200)] } : Slot).usage 1 = none := by decide +kernel
 
